@@ -477,6 +477,9 @@ func VX_C06_passthru() {
 	}
 	var r QFrame
 	if vx.ParamStr("mode") == "filtered" {
+		// an earlier, unrelated string Apply in the same process (state carried between calls)
+		warm := f.Apply(Instruction{Fn: func(x *string) *string { s := "stale"; return &s }, DstCol: "w", SrcCol1: "t"})
+		vx.Check(warm.Err == nil, "warm-up Apply")
 		r = f.FilteredApply(Filter{Column: "b", Comparator: ">", Arg: threshold}, in)
 	} else {
 		r = f.Apply(in)
